@@ -49,11 +49,11 @@ CLIENT_NOTE = ("Trusted: harness (sim net/broker/store, codec, gate scheduler), 
   "720 (quick) / 3600 (thorough) executions per run plus 30 / 300 per instance for the code-to-model validation, seeded by VERIF_SEED. 'Never returns' is "
   "observed as no event for a quiet period in the healed world with the blocked frame inside the package. Go's select among ready cases cannot be steered: "
   "a replay runs eight copies.")
-INST = {"C01": "one, q2, live_one, live_f4", "C02": "restart, restart2, seedwrap, seedrels", "C03": "q2, seedwrap0, live_f4", "C04": "in22, in, inrestart",
-        "C05": "two", "C07": "in, in22, inrestart", "C08": "mixreq, two, q12w2", "C10": "one, mixreq, live_one, live_f4",
+INST = {"C01": "one, q2, live_one, live_f4", "C02": "restart, restart2, seedwrap, seedrels, seedwrapb0", "C03": "q2, seedwrap0, seedwrapb0, live_f4", "C04": "in22, in, inrestart",
+        "C05": "two, seedwrap0", "C07": "in, in22, inrestart", "C08": "mixreq, two, q12w2", "C10": "one, mixreq, inw, live_one, live_f4",
         "C11": "req, pings, quit, unsub, devF25 (+ req_b), live_req", "C12": "close, reqclose, disc, discreq (+ close_b), live_close, live_disc",
-        "C13": "in", "C14": "req, close, quit, unsub", "C16": "damage, damage3, damage5, seedmix, seedwrap (+ damage24)", "C17": "max1, one", "C18": "one, req"}
-for pid, fam in [("C01","out,restart,wrap"),("C02","restart,wrap"),("C03","out,restart"),("C04","in,inrestart"),("C05","out,restart"),("C07","in"),
+        "C13": "in", "C14": "req, close, quit, unsub", "C16": "damage, damage3, damage5, seedmix, seedwrap, seedwrapb (+ damage24)", "C17": "max1, one", "C18": "one, req"}
+for pid, fam in [("C01","out,restart,wrap"),("C02","restart,wrap"),("C03","out,restart"),("C04","in,inrestart,inbig"),("C05","out,restart,wrap"),("C07","in"),
                  ("C08","req,out"),("C14","req,close,out,connect"),("C10","connect,req,out,in"),("C11","req,close,connect,hostile"),("C12","close"),
                  ("C13","hostile,in"),("C16","damage,damagein"),("C17","out,restart,req,wrap"),("C18","connect,out")]:
     CHECKS[pid] = dict(engine="client", level="model_checking",
